@@ -181,9 +181,9 @@ def py_dispatch(r):
 
 
 POLL_RE = re.compile(r"^poll env=(\S*) E (?:n=(\d+) cap=(\d+)|dead) \[(\S*)\] cb=(\S*) \| P (?:n=(\d+)|dead) \[(\S*)\] cb=(\S*)$")
-LOOP_SIDE_RE = re.compile(r"^(?:E|P) (dead|FAULT|(ok|rejected) n=(\d+)(?: cap=(\d+))? \[(\S*)\](?: cb=(\S*))?)$")
+LOOP_SIDE_RE = re.compile(r"^(?:E|P) (dead|FAULT|(ok|rejected) n=(\d+)(?: cap=(\d+))? \[(\S*)\](?: cb=(\S*) fn=(\S*))?)$")
 LOOPLINE_RE = re.compile(r"^loop env=(\S*) (E .*?) \| (P .*?) \|\| (.*)$")
-SCRIPT_OPS = ("ER", "DR", "EW", "DW", "DA", "RM")
+SCRIPT_OPS = ("ER", "DR", "EW", "DW", "DA", "RM", "NEW", "DEL")
 
 
 def parse_pairs(s):
@@ -212,16 +212,34 @@ def parse_loop_side(txt):
     if m.group(1) in ("dead", "FAULT"):
         return {"status": m.group(1)}
     return {"status": m.group(2), "n": int(m.group(3)), "cap": int(m.group(4)) if m.group(4) else None,
-            "act": parse_pairs(m.group(5)), "cbs": parse_cbs(m.group(6)) if m.group(6) is not None else None}
+            "act": parse_pairs(m.group(5)), "cbs": parse_cbs(m.group(6)) if m.group(6) is not None else None,
+            "fn": [int(x) for x in m.group(7).split(",") if x] if m.group(7) is not None else None}
+
+
+def parse_script(w):
+    """ON c kind [Q] op c2 [k] -> (c, kind, queued, op, c2, arg)"""
+    i = 3
+    queued = False
+    if w[i] == "Q":
+        queued = True
+        i += 1
+    return (int(w[1]), w[2], queued, w[i], int(w[i + 1]), int(w[i + 2]) if len(w) > i + 2 else -1)
+
+
+def script_op(sc):
+    return [sc[3], str(sc[4])] + ([str(sc[5])] if sc[3] == "NEW" else [])
 
 
 class Spec:
     """The interest map of the property text: Channel object -> subscribed conditions (one per back-end:
     after a batch whose callbacks are order dependent the two sides may legitimately differ)."""
 
-    def __init__(self):
+    def __init__(self, side="E"):
+        self.side = side
         self.o = {}       # c -> dict(fd, ev, reg, rm)
-        self.anom = set()  # channels currently in the state the F-14 signature describes
+        # channels that WOULD be registered with an empty interest by the code before a5a0563 (the exact state
+        # machine of the old shape: epoll re-ADDs on every second redundant disable, poll only adds a fresh one)
+        self.anom = set()
 
     def taken(self, fd, exc):
         return any(v["reg"] and v["fd"] == fd for c, v in self.o.items() if c != exc)
@@ -266,9 +284,15 @@ class Spec:
             self.anom.discard(c)
         elif k in UPD:
             v = self.o[c]
-            if KEY_F14 in self.finding_flags(w):
-                self.anom.add(c)
-            elif UPD[k](v["ev"]) != 0:
+            empty = UPD[k](v["ev"]) == 0
+            if empty and not v["reg"]:
+                self.anom.add(c)                       # fresh channel disabled: old code registered it with no interest
+            elif empty and v["ev"] == 0:
+                if self.side == "E" and c not in self.anom:
+                    self.anom.add(c)                   # old epoll: kDeleted re-ADDed with events 0
+                else:
+                    self.anom.discard(c)               # old epoll: kAdded/0 -> DEL; old poll: update branch negates the entry
+            else:
                 self.anom.discard(c)
             v["ev"] = UPD[k](v["ev"])
             v["reg"] = True
@@ -319,19 +343,20 @@ def oracle(case, lines, crash=None, ri=True, events=None):
                 bad.append((0, "free-running loop (%s): %s=%s (a loop with nothing ready must block, each wake-up/task/timer is "
                                "consumed once)" % (backend, k, v), set()))
         return bad
-    sides = {"E": Spec(), "P": Spec()}
+    sides = {"E": Spec("E"), "P": Spec("P")}
     dead = {"E": False, "P": False}
-    tied, owner = {}, {}
+    tied, owner = {"E": {}, "P": {}}, {"E": {}, "P": {}}
     scripts = []
     trunc_run = None          # consecutive truncated epoll polls: (first index, N, polls so far)
 
     def live():
         return [x for x in ("E", "P") if not dead[x]]
 
-    def runs(c):
-        return (not tied.get(c, False)) or owner.get(c, False)
+    def runs(c, x="E"):
+        return (not tied[x].get(c, False)) or owner[x].get(c, False)
 
     def check_side(i, name, sp, ready, act, cbs, ordered):
+        x = sp.side
         """reported set and callbacks of one back-end against its interest map at poll time"""
         exp = sp.expected(ready)
         got = dict(act)
@@ -351,8 +376,8 @@ def oracle(case, lines, crash=None, ri=True, events=None):
                 ev.add("hup-or-err")
         want = []
         for c, r in (act if ordered else sorted(act)):
-            if runs(c):
-                want += [(c, x) for x in py_dispatch(r)]
+            if runs(c, x):
+                want += [(c, kd) for kd in py_dispatch(r)]
             else:
                 ev.add("tied-owner-gone")
         if cbs is not None and cbs != want:
@@ -372,7 +397,8 @@ def oracle(case, lines, crash=None, ri=True, events=None):
                 if "removeChannel" in summ and "pfd.fd == -channel->fd()-1" in summ and not dead["P"]:
                     if w[0] == "RM" and int(w[1]) in spP.anom:
                         fl.add(KEY_F14)
-                    if w[0] == "LOOP" and any(sc[2] == "RM" and (sc[3] in spP.anom or any(s2[3] == sc[3] and s2[2] in ("DA", "DR", "DW") for s2 in scripts))
+                    if w[0] == "LOOP" and any(sc[3] == "RM" and (sc[4] in spP.anom or any(s2[4] == sc[4] and s2[3] in ("DA", "DR", "DW") and
+                                                                               (spP.o.get(sc[4]) is None or not spP.o[sc[4]]["reg"]) for s2 in scripts))
                                               for sc in scripts):
                         fl.add(KEY_F14)
                 bad.append((i, msg, fl))
@@ -396,14 +422,17 @@ def oracle(case, lines, crash=None, ri=True, events=None):
                             % (w[2], "tied to a destroyed owner" if not runs(c) else "live", ln[7:], want), set()))
             continue
         if k == "TIE":
-            tied[int(w[1])] = True
-            owner[int(w[1])] = True
+            for x in ("E", "P"):
+                if int(w[1]) in sides[x].o:
+                    tied[x][int(w[1])] = True
+                    owner[x][int(w[1])] = True
             continue
         if k == "DROP":
-            owner[int(w[1])] = False
+            for x in ("E", "P"):
+                owner[x][int(w[1])] = False
             continue
         if k == "ON":
-            scripts.append((int(w[1]), w[2], w[3], int(w[4])))
+            scripts.append(parse_script(w))
             continue
         if k == "OFF":
             scripts = []
@@ -426,8 +455,9 @@ def oracle(case, lines, crash=None, ri=True, events=None):
                         ev.add("re-register-same-object")
                     sp.step(w)
                 if k == "NEW":
-                    tied.pop(int(w[1]), None)
-                    owner.pop(int(w[1]), None)
+                    for x in live():
+                        tied[x].pop(int(w[1]), None)
+                        owner[x].pop(int(w[1]), None)
                 if k == "RM":
                     ev.add("remove")
             trunc_run = None
@@ -480,27 +510,58 @@ def oracle(case, lines, crash=None, ri=True, events=None):
                 res[x] = (pr["n"], pr["cap"], pr["act"], pr["cbs"])
                 if pr["act"]:
                     ev.add("active")
-                # the callbacks' own calls, in the order the callbacks ran
+                # the callbacks' own calls, in the order the callbacks ran; functors they queue run afterwards
+                # (doPendingFunctors), in the order they were queued, without the batch asserts
                 rejected = False
+                queued = []
+
+                def apply(w2, cur):
+                    g = sp.guard(w2)
+                    if g and cur is not None:
+                        if w2[0] == "RM" and int(w2[1]) != cur and int(w2[1]) in snapshot:
+                            g = False     # EventLoop::removeChannel: not the current channel and still in activeChannels_
+                        if w2[0] == "DEL" and int(w2[1]) == cur:
+                            g = False     # ~Channel: assert(!eventHandling_)
+                    if not g:
+                        return False
+                    sp.step(w2)
+                    if w2[0] == "NEW":
+                        tied[x].pop(int(w2[1]), None)
+                        owner[x].pop(int(w2[1]), None)
+                        ev.add("channel-constructed-in-batch")
+                    if w2[0] == "DEL":
+                        ev.add("channel-destroyed-in-batch")
+                        # the assert of EventLoop::removeChannel compares objects: a destroyed one is out of the snapshot,
+                        # a fresh object constructed under the same id is not "in activeChannels_"
+                        while int(w2[1]) in snapshot:
+                            snapshot.remove(int(w2[1]))
+                    ev.add("callback-op")
+                    return True
                 for (c, kind) in want_cbs:
                     v = sp.o.get(c)
                     if v is None or not v["reg"] or v["ev"] == 0:
                         if c not in sp.anom:
                             ev.add("stale-call-within-batch")
-                    for (sc, skind, sop, sc2) in scripts:
-                        if sc != c or skind != kind:
+                    for si, sc in enumerate(scripts):
+                        if sc[0] != c or sc[1] != kind:
                             continue
-                        w2 = [sop, str(sc2)]
-                        g = sp.guard(w2)
-                        if g and sop == "RM" and sc2 != c and sc2 in snapshot:
-                            g = False     # EventLoop::removeChannel: not the current channel and still in activeChannels_
-                        if not g:
+                        if sc[2]:
+                            queued.append(si)
+                            continue
+                        if not apply(script_op(sc), c):
                             rejected = True
                             break
-                        sp.step(w2)
-                        ev.add("callback-op")
                     if rejected:
                         break
+                if not rejected:
+                    for si in queued:
+                        ev.add("functor-queued-by-callback")
+                        if not apply(script_op(scripts[si]), None):
+                            rejected = True
+                            break
+                if not rejected and pr["status"] == "ok" and pr["fn"] != queued:
+                    bad.append((i, "%s: functors run by doPendingFunctors %s, the callbacks of this batch queued %s (each must run once, in "
+                                   "order, in the same iteration)" % (name, pr["fn"], queued), set()))
                 if rejected != (pr["status"] == "rejected"):
                     bad.append((i, "%s: the callbacks' calls %s a precondition (Channel API / EventLoop::removeChannel), the implementation's "
                                    "batch was %s" % (name, "violate" if rejected else "respect", pr["status"]), set()))
@@ -696,6 +757,18 @@ HANDMADE = {
                                  "ON 0 read DA 1", "ON 0 read RM 1", "ON 1 read DA 0", "ON 1 read RM 0", "LOOP", "POLL"],
     "tied_in_batch": ["open 0 E", "open 1 S", "NEW 0 0", "NEW 1 1", "ER 0", "ER 1", "EW 1", "TIE 1", "wr 0", "wr 1", "LOOP", "DROP 1", "LOOP",
                       "POLL", "ON 0 read DA 1", "LOOP", "LOOP", "DEL 1", "RM 1", "DEL 1", "NEW 1 1", "ER 1", "LOOP"],
+    # a callback constructs and registers a new channel; another one's callback queues functors (queueInLoop) that disable,
+    # remove and destroy a channel of the snapshot -- allowed there (doPendingFunctors runs after the dispatch loop)
+    "batch_construct_destroy": ["open 0 E", "open 1 E", "open 2 E", "NEW 0 0", "NEW 1 1", "ER 0", "ER 1", "wr 0", "wr 1", "wr 2",
+                                "ON 0 read NEW 5 2", "ON 0 read ER 5", "ON 1 read Q DA 0", "ON 1 read Q RM 0", "ON 1 read Q DEL 0",
+                                "LOOP", "OFF", "ON 5 read DA 5", "ON 5 read RM 5", "ON 1 read Q DEL 5", "ON 1 read Q NEW 5 0", "ON 1 read Q EW 5",
+                                "TIE 5", "LOOP", "LOOP", "POLL"],
+    # destroying the channel whose callback is running (~Channel: assert(!eventHandling_)) is rejected; destroying one that
+    # removed itself earlier in the batch is fine
+    "batch_destroy_current": ["open 0 E", "open 1 E", "NEW 0 0", "NEW 1 1", "ER 0", "ER 1", "wr 0", "wr 1",
+                              "ON 0 read DA 0", "ON 0 read RM 0", "ON 0 read DEL 0", "LOOP", "POLL"],
+    "batch_destroy_earlier": ["open 0 P", "open 1 P", "NEW 0 0", "NEW 1 1", "ER 0", "ER 1", "wr 0", "wr 1",
+                              "ON 0 read DA 0", "ON 0 read RM 0", "ON 1 read DEL 0", "ON 1 read NEW 0 0", "ON 1 read ER 0", "LOOP", "LOOP", "POLL"],
     "conditions": ["open 0 S", "open 1 P", "open 2 Q", "open 3 E", "NEW 0 0", "NEW 1 1", "NEW 2 2", "NEW 3 3", "ER 0", "EW 0", "ER 1", "EW 2",
                    "ER 3", "EW 3", "POLL", "wr 0", "wr 1", "fill 2", "fill 3", "POLL", "fill 0", "POLL", "unfill 0", "unfill 2", "drain 3", "POLL",
                    "hc 0", "POLL", "drain 0", "POLL", "pc 0", "pc 1", "pc 2", "POLL", "drain 1", "POLL", "DR 0", "POLL", "DW 0", "RM 0", "POLL"],
@@ -728,6 +801,7 @@ def gen_random(rng, count, ri, wild, prefix="r", maxops=40, loopy=0.3):
         # a "loopy" history dispatches through real EventLoop::loop() iterations with scripted callbacks
         # (the generator's own interest map does not follow the callbacks' effects: later ops may then be rejected)
         is_loopy = rng.random() < loopy
+        script_fds = set()
         for k in range(nfd):
             op = "open %d %s" % (k, rng.choice(kinds))
             ds.apply(op.split())
@@ -759,10 +833,20 @@ def gen_random(rng, count, ri, wild, prefix="r", maxops=40, loopy=0.3):
                     c = rng.choice(alive)
                     c2 = rng.choice(alive) if rng.random() < 0.8 else c
                     kind = rng.choice(["read", "read", "write", "write", "close", "error"])
-                    sop = rng.choice(["DA", "DR", "DW", "ER", "EW", "RM", "DA"])
-                    emit("ON %d %s %s %d" % (c, kind, sop, c2))
+                    q = "Q " if rng.random() < 0.25 else ""
+                    sop = rng.choice(["DA", "DR", "DW", "ER", "EW", "RM", "DA", "DEL", "NEW"])
+                    if sop == "NEW":
+                        if not ds.d:
+                            continue
+                        kfd = rng.choice(sorted(ds.d))
+                        script_fds.add(kfd)
+                        emit("ON %d %s %sNEW %d %d" % (c, kind, q, rng.randrange(nch), kfd))
+                    else:
+                        emit("ON %d %s %s%s %d" % (c, kind, q, sop, c2))
                     if sop == "DA" and rng.random() < 0.4:
-                        emit("ON %d %s RM %d" % (c, kind, c2))
+                        emit("ON %d %s %sRM %d" % (c, kind, q, c2))
+                        if rng.random() < 0.4:
+                            emit("ON %d %s %sDEL %d" % (rng.choice(alive), kind, q, c2))
                 elif y < 0.62:
                     emit("OFF")
                 elif y < 0.72:
@@ -800,7 +884,7 @@ def gen_random(rng, count, ri, wild, prefix="r", maxops=40, loopy=0.3):
                 if rng.random() < 0.35 and c in sp.o and not sp.o[c]["reg"]:
                     k = sp.o[c]["fd"]
                     emit("DEL %d" % c)
-                    if rng.random() < 0.6 and not any(v["fd"] == k for v in sp.o.values()):
+                    if rng.random() < 0.6 and k not in script_fds and not any(v["fd"] == k for v in sp.o.values()):
                         emit("close %d" % k)
                         emit("open %d %s" % (k, rng.choice(kinds)))
                         emit("NEW %d %d" % (rng.choice([c, rng.randrange(nch)]), k))
@@ -844,15 +928,32 @@ def gen_batches(rng, count, prefix="b"):
             ops.append("TIE %d" % c)
             if rng.random() < 0.6:
                 ops.append("DROP %d" % c)
+        spare = n            # an extra descriptor for channels constructed inside a batch
+        ops.append("open %d E" % spare)
+        if rng.random() < 0.5:
+            ops.append("wr %d" % spare)
         for _ in range(rng.randint(1, 5)):
             c, c2 = rng.randrange(n), rng.randrange(n)
             kind = rng.choice(["read", "read", "write"])
+            q = "Q " if rng.random() < 0.3 else ""
             sop = rng.choice(["DA", "DA", "DR", "DW", "ER", "EW"])
-            ops.append("ON %d %s %s %d" % (c, kind, sop, c2))
-            if sop == "DA" and rng.random() < 0.35:
-                ops.append("ON %d %s RM %d" % (c, kind, c2))
-                if rng.random() < 0.5:
-                    ops.append("ON %d %s %s %d" % (c, kind, rng.choice(["ER", "EW"]), c2))
+            ops.append("ON %d %s %s%s %d" % (c, kind, q, sop, c2))
+            if sop == "DA" and rng.random() < 0.45:
+                ops.append("ON %d %s %sRM %d" % (c, kind, q, c2))
+                y = rng.random()
+                if y < 0.4:
+                    ops.append("ON %d %s %s%s %d" % (c, kind, q, rng.choice(["ER", "EW"]), c2))
+                elif y < 0.75:
+                    # destroy it (possibly from another channel's callback), perhaps construct a fresh one on the same id
+                    who = c if rng.random() < 0.4 else rng.randrange(n)
+                    ops.append("ON %d %s %sDEL %d" % (who, rng.choice(["read", "write"]) if who != c else kind, q, c2))
+                    if rng.random() < 0.5:
+                        ops.append("ON %d %s %sNEW %d %d" % (who, kind, q, c2, rng.choice([c2, spare])))
+                        ops.append("ON %d %s %s%s %d" % (who, kind, q, rng.choice(["ER", "EW"]), c2))
+            if rng.random() < 0.15:
+                cn = n + 1 + rng.randrange(2)
+                ops.append("ON %d %s %sNEW %d %d" % (c, kind, q, cn, spare))
+                ops.append("ON %d %s %s%s %d" % (c, kind, q, rng.choice(["ER", "EW", "DA"]), cn))
         ops.append("LOOP")
         for _ in range(rng.randint(0, 3)):
             y = rng.random()
@@ -942,12 +1043,13 @@ def run(chk, replay=None):
             cases += list(gen_enumerated(3, sample=0.25, rng=rng))
             nrand, nwild = 1500, 60
         else:
-            sizes = [1, 2, 15, 16, 17, 31, 32, 33, 63, 64, 65, 100, 128, 129, 200, 256, 257, 300]
+            # every array boundary (16 * 2^k and its neighbours) and a sweep of 1..300 simultaneously ready descriptors
+            sizes = sorted(set([1, 2, 15, 16, 17, 31, 32, 33, 63, 64, 65, 100, 127, 128, 129, 200, 255, 256, 257, 299, 300] + list(range(3, 300, 9))))
             cases += list(gen_enumerated(2)) + list(gen_enumerated(3))
-            cases += list(gen_enumerated(4, sample=0.2, rng=rng))
-            nrand, nwild = 40000, 600
+            cases += list(gen_enumerated(4, sample=0.25, rng=rng))
+            nrand, nwild = 120000, 3000
         cases += [case_growth(n) for n in sizes]
-        cases += list(gen_batches(rng, 300 if tier == "quick" else 6000))
+        cases += list(gen_batches(rng, 300 if tier == "quick" else 25000))
         cases += list(gen_random(rng, nrand, ri, wild=False, prefix="r"))
         cases += list(gen_random(rng, nwild, ri, wild=True, prefix="w"))
     chk.cov["generator_histogram"] = getattr(gen_random, "stats", {})
